@@ -118,6 +118,24 @@ func (in *Interp) invoke(fnv Value, args []Value, c *ssa.CallCommon, fr *Frame) 
 	if in.summaries["FindRoot"] && name == repoMod+"/util/fn.FindRoot" {
 		return in.findRootSummary(args, c, fr)
 	}
+	if in.summaries["uf:"+fn.Name()] && in.inRepo(fn) {
+		// stated abstraction: the callee is an arbitrary (deterministic) function of its float
+		// arguments; what is proved holds for every such function, hence for the real one
+		ts := make([]*Term, len(args))
+		okAll := true
+		for i, a := range args {
+			t, isT := a.(*Term)
+			if !isT || !(t.sort == SReal || t.sort.IsFP()) {
+				okAll = false
+				break
+			}
+			ts[i] = t
+		}
+		if okAll {
+			in.notes = appendNote(in.notes, fn.Name()+" summarised as an uninterpreted function of its arguments")
+			return []Value{in.ackermannNamedX("fn_"+fn.Name(), ts, false, false)}
+		}
+	}
 	if fn.Name() == "init" && fn.Synthetic != "" && fn.Pkg != nil {
 		if !in.inRepo(fn) {
 			return nil
@@ -416,6 +434,12 @@ func (in *Interp) intrinsic(name string, fn *ssa.Function, args []Value) []Value
 		ngs := ts.IntCmp("slt", sign, zero)
 		return one(ts.And(inf, ts.Ite(pos, ts.Not(neg), ts.Ite(ngs, neg, ts.True()))))
 	case "math.NaN":
+		if real && in.summaries["NaNIsFailure"] {
+			// R-model: a NaN cannot be represented; constructing one is reported when the harness
+			// asked for it (Summarise("NaNIsFailure")), and the value is an arbitrary real
+			in.obligation("no-NaN-constructed", "assert", ts.False())
+			return one(ts.Fresh("nan", SReal))
+		}
 		return one(ts.FloatConst(in.floatSort(), math.NaN()))
 	case "math.Inf":
 		s := T(0)
@@ -871,9 +895,33 @@ func (in *Interp) rpow(x, e *Term) *Term {
 	in.axiom(ts.Implies(ts.Eq(e, zero), ts.Eq(y, onec)))
 	in.axiom(ts.Implies(ts.Eq(e, onec), ts.Eq(y, x)))
 	in.axiom(ts.Implies(ts.And(ts.Eq(x, zero), lt(zero, e)), ts.Eq(y, zero)))
+	if x.IsConst() && x.r.Cmp(big.NewRat(1, 1)) > 0 {
+		// constant base b > 1, symbolic exponent: b^e is increasing in e; compare against a
+		// quarter-step grid of exponents whose values are float64 library values widened by 1e-12
+		b := ratF(x)
+		for g := -4.0; g <= 4.0; g += 0.25 {
+			v := math.Pow(b, g)
+			gc := in.realConst(g)
+			in.axiom(ts.Implies(le(e, gc), le(y, ts.FloatConst(SReal, v*(1+1e-12)))))
+			in.axiom(ts.Implies(le(gc, e), le(ts.FloatConst(SReal, v*(1-1e-12)), y)))
+		}
+	}
+	if e.IsConst() && e.r.Sign() > 0 && !e.r.IsInt() {
+		// constant non-integer exponent: between the neighbouring integer powers
+		if ef := ratF(e); ef < 8 {
+			lo, hi := in.ipow(x, int(math.Floor(ef))), in.ipow(x, int(math.Ceil(ef)))
+			in.axiom(ts.Implies(ts.And(le(zero, x), le(x, onec)), ts.And(le(hi, y), le(y, lo))))
+			in.axiom(ts.Implies(le(onec, x), ts.And(le(lo, y), le(y, hi))))
+		}
+	}
 	for _, c := range in.mathCalls["pow"] {
 		x2, e2, y2 := c.args[0], c.args[1], c.res
 		in.axiom(ts.Implies(ts.And(ts.Eq(x, x2), ts.Eq(e, e2)), ts.Eq(y, y2)))
+		// monotone in the exponent for equal base >= 1 (decreasing for a base in (0,1])
+		in.axiom(ts.Implies(ts.And(ts.Eq(x, x2), le(onec, x), le(e, e2)), le(y, y2)))
+		in.axiom(ts.Implies(ts.And(ts.Eq(x, x2), le(onec, x), le(e2, e)), le(y2, y)))
+		in.axiom(ts.Implies(ts.And(ts.Eq(x, x2), lt(zero, x), le(x, onec), le(e, e2)), le(y2, y)))
+		in.axiom(ts.Implies(ts.And(ts.Eq(x, x2), lt(zero, x), le(x, onec), le(e2, e)), le(y, y2)))
 		// monotone in the base for equal positive exponent
 		in.axiom(ts.Implies(ts.And(ts.Eq(e, e2), lt(zero, e), le(zero, x), le(x, x2)), le(y, y2)))
 		in.axiom(ts.Implies(ts.And(ts.Eq(e, e2), lt(zero, e), le(zero, x2), le(x2, x)), le(y2, y)))
@@ -935,7 +983,14 @@ func (in *Interp) mathContract(f string, x *Term) *Term {
 		in.axiom(ts.Implies(lt(zero, x), le(y, ts.FOp("fsub", x, onec))))
 		in.axiom(ts.Implies(lt(onec, x), lt(zero, y)))
 		in.axiom(ts.Implies(ts.And(lt(zero, x), lt(x, onec)), lt(y, zero)))
+		// tangent lines of the concave logarithm at c: log x <= x/c + log c - 1 (log c rounded up)
+		for _, c := range []float64{8, 148, 22026} {
+			in.axiom(ts.Implies(lt(zero, x), le(y, ts.FOp("fadd", ts.FOp("fdiv", x, in.realConst(c)), ts.FloatConst(SReal, math.Log(c)*(1+1e-12)-1)))))
+		}
 	case "log10":
+		// tangent at 1: log10 x <= (x-1)/ln 10, constant rounded towards the sound side
+		in.axiom(ts.Implies(le(onec, x), le(y, ts.FOp("fmul", ts.FOp("fsub", x, onec), in.realConst(0.4342945)))))
+		in.axiom(ts.Implies(ts.And(lt(zero, x), le(x, onec)), le(y, ts.FOp("fmul", ts.FOp("fsub", x, onec), in.realConst(0.4342944)))))
 		in.axiom(ts.Implies(ts.Eq(x, onec), ts.Eq(y, zero)))
 		in.axiom(ts.Implies(lt(onec, x), lt(zero, y)))
 		in.axiom(ts.Implies(ts.And(lt(zero, x), lt(x, onec)), lt(y, zero)))
@@ -980,21 +1035,25 @@ func (in *Interp) lockOp(name string, args []Value) []Value {
 			in.obligation("lock-discipline:Lock-while-held", "implicit", in.ts.False())
 		}
 		in.lockState[key] = -1
+		in.setHeld(key, 2)
 	case strings.HasSuffix(name, ".Unlock"):
 		if st != -1 {
 			in.obligation("lock-discipline:Unlock-not-held", "implicit", in.ts.False())
 		}
 		in.lockState[key] = 0
+		in.setHeld(key, 0)
 	case strings.HasSuffix(name, ".RLock"):
 		if st < 0 {
 			in.obligation("lock-discipline:RLock-while-write-held", "implicit", in.ts.False())
 		}
 		in.lockState[key] = st + 1
+		in.setHeld(key, 1)
 	case strings.HasSuffix(name, ".RUnlock"):
 		if st <= 0 {
 			in.obligation("lock-discipline:RUnlock-not-held", "implicit", in.ts.False())
 		}
 		in.lockState[key] = st - 1
+		in.setHeld(key, 0)
 	}
 	return nil
 }
